@@ -186,7 +186,8 @@ def pools(app) -> dict:
                 continue
             reps[mf.name] = {"stream": mf.stream.directory, "sn": r.start_number, "n": r.num_media_segments,
                              "sd": r.segment_duration, "ts": r.timescale,
-                             "durs": [seg.duration for seg in r.segments[1:]], "content_type": mf.content_type}
+                             "durs": [seg.duration for seg in r.segments[1:]], "content_type": mf.content_type,
+                             "mfid": mf.pk, "spk": mf.stream_pk, "nlist": len(r.segments)}
     from dashlive.server.manifests import manifest_map
     return {"streams": streams, "spks": spks, "mfs": mfs, "mfids": mfids, "mfid_of": mfid_of, "kpks": kpks,
             "mps": mps, "ppks": ppks, "pfiles": pfiles, "users": users, "reps": reps,
